@@ -5,7 +5,10 @@ from engine.api import Ob, pick, choose, cover
 from ref import term
 from ref.view import S, V, TEXT, SIGMA, SIGMA4, b1_step, norm_slice, ranges
 
-from ansi_string import AnsiString
+from ansi_string import AnsiString, AnsiFormat
+
+# the same alphabet given as enum member / nested list / tuple / doubly nested list
+SIGMA_SP = ((AnsiFormat.FG_RED, '31'), (['blue'], '34'), (('bold',), '1'), ([['no_bold_faint']], '22'))
 
 LEVEL = 'model_checking'
 
@@ -100,12 +103,17 @@ def _core(s, n, sigma, op_sigma, so, c, d, top):
     bad = check_apply(s, n, before, vbefore, st[1], lo, hi, bool(top))
     if bad:
         return bad
+    if d is None or d >= n:
+        # nothing stays open past the end of the text
+        z = s + 'z'
+        if [str(x) for x in z.ansi_settings_at(n)] != []:
+            return ('style-open-past-the-text', c, d, S(z))
     return True
 
 
 def h_apply(n: int, k: int, s1: int, r1: int, s2: int, r2: int, t2: bool,
-            so: int, c: Optional[int], d: Optional[int], top: bool, sigma_n: int = 4, op_sigma=None):
-    sigma = SIGMA[:sigma_n]
+            so: int, c: Optional[int], d: Optional[int], top: bool, sigma_n: int = 4, op_sigma=None, spelled=False):
+    sigma = SIGMA_SP if spelled else SIGMA[:sigma_n]
     s = AnsiString(TEXT[:n])
     if k >= 1:
         if b1_step(s, n, s1, r1, True, sigma) is None:
@@ -229,6 +237,9 @@ def obligations(tier):
         for s1 in range(3):
             obs.append(Ob('apply/b3/n3/s%d' % s1, h_apply3, dict(n=3, s1=s1, r1=2), need=('nonempty',), budget=900,
                           bounds='n=3, 3 builder steps over (red, blue, bold), first on the whole text; new setting underline on every canonical range', kinds=KINDS))
+        for r1 in range(3):
+            obs.append(Ob('apply/b2sp/n2/r%d' % r1, h_apply, dict(n=2, k=2, s1=0, r1=r1, op_sigma=(0,), spelled=True), need=('nonempty',), budget=900,
+                          bounds='n=2, 2 builder steps, settings spelled as enum member / nested list / tuple; new setting = the same enum member again', kinds=KINDS))
         obs.append(Ob('empty-settings/n2', h_empty_settings, dict(n=2), need=('empty-settings',), budget=200,
                       bounds='n=2', kinds=KINDS))
         obs.append(Ob('multi/n2', h_multi, dict(n=2), need=('nonempty', 'multi-conflict'), budget=600, bounds='n=2, 3 two-setting lists', kinds=KINDS))
